@@ -28,6 +28,12 @@ pub struct ScriptBody {
 	honest_len: Option<u64>,
 }
 
+impl ScriptBody {
+	pub fn new(frames: Vec<(Vec<u8>, u32)>, honest_len: Option<u64>) -> Self {
+		ScriptBody { frames: frames.into(), trailers: false, sleep: None, yielded: false, honest_len }
+	}
+}
+
 impl http_body::Body for ScriptBody {
 	type Data = Bytes;
 	type Error = std::convert::Infallible;
